@@ -25,6 +25,11 @@ class AnalysisError(Exception):
     """The analyser cannot read the construct it is asked about (exit 2)."""
 
 
+class FloorError(AnalysisError):
+    """A rule found fewer instances than were confirmed by hand: the rest of the check is not run.  Findings already made stand on
+    their own (each names its construct) and are still reported."""
+
+
 @dataclass
 class Obligation:
     rule: str          # e.g. "C02.OP-MUNCH"
@@ -83,7 +88,7 @@ class Report:
         """A rule that matches fewer instances than confirmed by hand must not pass vacuously."""
         self.floors.append((what, got, minimum))
         if got < minimum:
-            raise AnalysisError(
+            raise FloorError(
                 f"instance floor not met for {what}: found {got}, expected at least {minimum}"
             )
 
@@ -219,6 +224,13 @@ def run_check(prop: str, tier: str, root: Path, fn) -> int:
     try:
         explanation, trusted = fn(rep)
         return finish(rep, explanation, trusted)
+    except FloorError as e:
+        known = {f["key"] for f in load_known().get("findings", []) if f.get("property") == prop}
+        if any(not o.ok and o.key not in known for o in rep.obs):
+            rep.note(f"analysis stopped early: {e}")
+            return finish(rep, f"incomplete run ({e}); the findings made before that point are reported", [])
+        print(f"ANALYSIS-ERROR property={prop}: {e}")
+        return 2
     except AnalysisError as e:
         print(f"ANALYSIS-ERROR property={prop}: {e}")
         if os.environ.get("PYAB_VERIF_VERBOSE"):
